@@ -6,6 +6,8 @@ import XrlParser.Lemmas.Scan
 namespace XrlParser
 open Hand Spec
 
+variable {v : Variant}
+
 /-- the element table of the specification as the parser reads it from the model's tables:
     symbol ↦ Z by the `bsearch` in `MendelArraySorted`, weight by `AtomicWeight` (none when it fails). -/
 def elementsOf (T : Tables) : Elements :=
@@ -36,17 +38,17 @@ theorem sub_value_pos {s : Sub} (h : s.Pos) : 0 < s.value := by
   | junk t => exact absurd h (by simp [Sub.Pos])
 
 /-- the loop over `upper_locs` adds the top-level symbols -/
-theorem atomsLoop_ok (T : Tables) (f : Formula) (hf : f.Shape) (hk : f.Known (elementsOf T)) :
+theorem atomsLoop_ok (T : Tables) (f : Formula) (hf : f.Shape) (hk : KnownV v (elementsOf T) f) :
     ∀ (ca : Atoms) (g : Nat → Rat), Inv ca g →
-      ∃ ca', atomsLoop T (ups f []) ca = .ok ca' ∧ Inv ca' (fun z => g z + evalA (elementsOf T) f z) := by
+      ∃ ca', atomsLoop v T (ups f []) ca = .ok ca' ∧ Inv ca' (fun z => g z + evalA (elementsOf T) f z) := by
   induction f with
   | nil => intro ca g h; exact ⟨ca, rfl, h.congr (by intro z; simp [evalA])⟩
   | atom sym sub rest ih =>
     intro ca g h
     obtain ⟨Z, hZ⟩ := Option.isSome_iff_exists.1 hk.1
     have hZ' : lookupSym T sym = some Z := hZ
-    have hpa := parseAtom_ok T hf.1 hZ' hf.2.1 hk.2.1 (stop_printL hf.2.2 stop_nil)
-    have hv := sub_value_pos hk.2.1
+    have hpa := parseAtom_ok (v := v) T hf.1 hZ' hf.2.1 hk.2.1 (stop_printL hf.2.2 stop_nil)
+    have hv := sub_value_pos hk.2.1.1
     obtain ⟨ca', h1, h2⟩ := ih hf.2.2 hk.2.2 _ _ (addAtom_inv h Z hv)
     refine ⟨ca', ?_, h2.congr ?_⟩
     · simp only [ups, atomsLoop, hpa]; exact h1
@@ -80,11 +82,11 @@ theorem inside_eq (inner e : List Char) :
 /-- the loop over the bracket pairs adds the top-level groups, given that the recursive call is right on
     shorter well-formed formulas -/
 theorem groupsLoop_ok (T : Tables) (rec : List Char → Except Fail (Atoms × Nat)) (N : Nat)
-    (hrec : ∀ g : Formula, g.WF (elementsOf T) → g.printL.length < N →
+    (hrec : ∀ g : Formula, WFV v (elementsOf T) g → g.printL.length < N →
       ∃ sub l, rec g.printL = .ok (sub, l) ∧ Inv sub (g.eval (elementsOf T)))
-    (f : Formula) (hf : f.Shape) (hk : f.Known (elementsOf T)) (hlen : f.printL.length ≤ N) :
+    (f : Formula) (hf : f.Shape) (hk : KnownV v (elementsOf T) f) (hlen : f.printL.length ≤ N) :
     ∀ (ca : Atoms) (k : Nat) (g : Nat → Rat), Inv ca g →
-      ∃ ca' k', groupsLoop rec ((begs f []).zip (ens f [])) (ca, k) = .ok (ca', k') ∧
+      ∃ ca' k', groupsLoop v rec ((begs f []).zip (ens f [])) (ca, k) = .ok (ca', k') ∧
         Inv ca' (fun z => g z + evalG (elementsOf T) f z) := by
   induction f with
   | nil => intro ca k g h; exact ⟨ca, k, rfl, h.congr (by intro z; simp [evalG])⟩
@@ -98,9 +100,9 @@ theorem groupsLoop_ok (T : Tables) (rec : List Char → Except Fail (Atoms × Na
     rw [printL_length_group] at hlen
     have hl : rest.printL.length ≤ N := by omega
     obtain ⟨sa, l, hr1, hr2⟩ := hrec inner ⟨hk.1, hf.1, hk.2.1⟩ (by omega)
-    have hsub := subscript_ok (fun s => Err.convert s) hf.2.1 hk.2.2.1 (stop_printL hf.2.2 stop_nil)
-    have hv := sub_value_pos hk.2.2.1
-    have hstep : ∃ k1, groupStep rec (ca, k)
+    have hsub := subscript_ok (v := v) (fun s => Err.convert s) hf.2.1 hk.2.2.1 (stop_printL hf.2.2 stop_nil)
+    have hv := sub_value_pos hk.2.2.1.1
+    have hstep : ∃ k1, groupStep v rec (ca, k)
         ('(' :: (inner.printL ++ ')' :: (sub.print ++ (rest.printL ++ []))), ')' :: (sub.print ++ (rest.printL ++ [])))
         = .ok (addGroup ca sa sub.value, k1) := by
       unfold groupStep
@@ -118,12 +120,12 @@ theorem groupsLoop_ok (T : Tables) (rec : List Char → Except Fail (Atoms × Na
     exact h1
 
 theorem first_char_ok {f : Formula} (hne : f ≠ .nil) (hf : f.Shape) :
-    (isLowerC (cAt f.printL 0) || isDigitC (cAt f.printL 0)) = false := by
+    (isLowerC (cAt f.printL 0) || isDigitC (cAt f.printL 0) || (v.strictFix && decide (cAt f.printL 0 = '.'))) = false := by
   cases f with
   | nil => exact absurd rfl hne
   | atom sym sub rest =>
     obtain ⟨u, t, rfl, hu, _⟩ := symShape_cases hf.1
-    simp [Formula.printL, upper_not_lower hu, upper_not_digit hu]
+    simp [Formula.printL, upper_not_lower hu, upper_not_digit hu, (upper_ne hu).2.2.2]
   | group inner sub rest => simp [Formula.printL]; decide
 
 theorem scan_nonempty {f : Formula} (hne : f ≠ .nil) :
@@ -135,10 +137,10 @@ theorem scan_nonempty {f : Formula} (hne : f ≠ .nil) :
 
 /-- one level of `CompoundParserSimple` on a printed well-formed formula -/
 theorem parseLevel_ok (T : Tables) (rec : List Char → Except Fail (Atoms × Nat)) (N : Nat)
-    (hrec : ∀ g : Formula, g.WF (elementsOf T) → g.printL.length < N →
+    (hrec : ∀ g : Formula, WFV v (elementsOf T) g → g.printL.length < N →
       ∃ sub l, rec g.printL = .ok (sub, l) ∧ Inv sub (g.eval (elementsOf T)))
-    (f : Formula) (hwf : f.WF (elementsOf T)) (hlen : f.printL.length ≤ N) :
-    ∃ ca k, parseLevel T rec f.printL = .ok (ca, k) ∧ Inv ca (f.eval (elementsOf T)) := by
+    (f : Formula) (hwf : WFV v (elementsOf T) f) (hlen : f.printL.length ≤ N) :
+    ∃ ca k, parseLevel v T rec f.printL = .ok (ca, k) ∧ Inv ca (f.eval (elementsOf T)) := by
   obtain ⟨hne, hf, hk⟩ := hwf
   obtain ⟨p, hp⟩ := pass1_top f hf [] [] [] [] '\x00'
   simp only [List.append_nil, List.nil_append, pass1] at hp
@@ -147,19 +149,19 @@ theorem parseLevel_ok (T : Tables) (rec : List Char → Except Fail (Atoms × Na
   refine ⟨ca, k, ?_, hg2.congr (by intro z; rw [eval_split]; ring)⟩
   unfold parseLevel
   rw [if_neg (by rw [first_char_ok hne hf]; simp)]
-  have hp' : pass1 f.printL '\x00' {} = .ok ⟨0, ups f [], begs f [], ens f []⟩ := hp
+  have hp' : pass1 v f.printL '\x00' {} = .ok ⟨0, ups f [], begs f [], ens f []⟩ := hp
   simp only [hp', scan_nonempty hne, ha1, hg1]
   simp
 
 /-- `CompoundParserSimple` on a printed well-formed formula of any depth and length -/
 theorem parseSimple_ok (T : Tables) :
-    ∀ (fuel : Nat) (f : Formula), f.WF (elementsOf T) → f.printL.length < fuel →
-      ∃ ca k, parseSimple T fuel f.printL = .ok (ca, k) ∧ Inv ca (f.eval (elementsOf T)) := by
+    ∀ (fuel : Nat) (f : Formula), WFV v (elementsOf T) f → f.printL.length < fuel →
+      ∃ ca k, parseSimple v T fuel f.printL = .ok (ca, k) ∧ Inv ca (f.eval (elementsOf T)) := by
   intro fuel
   induction fuel with
   | zero => intro f _ h; omega
   | succ n ih =>
     intro f hwf hlen
-    exact parseLevel_ok T (parseSimple T n) n ih f hwf (by omega)
+    exact parseLevel_ok T (parseSimple v T n) n ih f hwf (by omega)
 
 end XrlParser
